@@ -31,6 +31,9 @@ class Check(RuntimeCheck):
                     if form == 0:
                         tree = tup([term(1, 'each', p) for p in pats]) if npat > 1 else term(1, 'each', pats[0])
                     elif form == 1:
+                        # every (k % 4 == 1)-th stub leaves its first pattern without a response: it still claims the calls it accepts
+                        if k % 4 == 1 and npat > 1:
+                            pats[0] = Pat(mask=pats[0].mask, chain=[])
                         tree = stub(1, pats)
                     else:
                         kinds = ['each', 'some', 'each']
@@ -49,6 +52,7 @@ class Check(RuntimeCheck):
         base = dict(ordered_weight=0, unordered_weight=4, stub_weight=2, max_terms=6)
         return [
             ('u', Profile(**base), n),
+            ('us', Profile(ordered_weight=0, unordered_weight=2, stub_weight=4, max_terms=5, noresp_chance=(1, 4)), n // 3),
             ('un', Profile(nested_args=True, nomatcher_chance=(1, 12), **base), n // 2),
             ('mix', Profile(nested_args=True, ordered_weight=1, unordered_weight=3, stub_weight=1, clones=2, end='mixed'), n // 2),
         ]
